@@ -57,6 +57,9 @@ def monitor(c):
             if not qual or not issued:
                 return i, "server sent its ServerHello flight (kinds %s) without having received a ClientHello echoing its cookie" % s["out_kinds"]
             return pending
+        if s.get("keygen") and s["out"] not in ("flight4", "mixed"):
+            # "... or make the server commit key-exchange work": no ephemeral key before the cookie came back
+            return i, "key-exchange work before the cookie came back: the server holds an ephemeral key pair after step %d (%s) although it has not accepted a cookie-bearing ClientHello" % (i, s["in"])
         if s["in"] == "timer" and s["out"] == "hvr":
             return i, "HelloVerifyRequest sent by the retransmission timer"
         if s["out"] == "hvr":
